@@ -9,6 +9,8 @@ RUNS = {
     "C01": [
         {"name": "K1-codec", "mode": "k1", "budget": (6500, 130000), "nontrivial": r"recv=msg:",
          "keyfn": "k1"},
+        {"name": "K3-reconstruction-over-both-read-paths", "mode": "k3", "budget": (120, 3000), "nontrivial": r"recv\d+=(msg|proto)", "keyfn": "generic"},
+        {"name": "K7-messages-intact-while-in-use", "mode": "kalias", "budget": (70, 1400), "nontrivial": r"answered=1", "keyfn": "generic"},
     ],
     "C11": [
         {"name": "K6-chunk", "mode": "kchunk", "budget": (20000, 400000), "nontrivial": r"calls=\d+@\d+,", "keyfn": "generic"},
@@ -55,12 +57,14 @@ RUNS = {
         {"name": "K7-scenarios", "mode": "k7scen", "budget": (10, 200), "nontrivial": r".", "keyfn": "k7scen"},
         {"name": "K2-stale-receive-buffers", "mode": "k2", "budget": (1000, 25000), "nontrivial": r"recv\d+=(msg|proto)", "keyfn": "k2"},
         {"name": "K7-reply-content-under-concurrency", "mode": "k7tags", "budget": (90, 2000), "nontrivial": r"missing=0", "keyfn": "generic"},
+        {"name": "K7-messages-intact-while-in-use", "mode": "kalias", "budget": (70, 1400), "nontrivial": r"answered=1", "keyfn": "generic"},
     ],
     "C19": [
         {"name": "K8-readdir", "mode": "k19", "budget": (600, 6000), "nontrivial": r"pages=([3-9]|\d\d)", "keyfn": "generic"},
     ],
     "C03": [
         {"name": "K6-client-server", "mode": "kcs", "budget": (6000, 60000), "nontrivial": r" c0=", "keyfn": "kcs"},
+        {"name": "K7-messages-intact-while-in-use", "mode": "kalias", "budget": (70, 1400), "nontrivial": r"answered=1", "keyfn": "generic"},
     ],
     "C10": [
         {"name": "K6-pool", "mode": "kpool", "budget": (10000, 100000), "nontrivial": r"x", "keyfn": "generic"},
@@ -101,6 +105,7 @@ RUNS = {
         {"name": "K2-framing", "mode": "k2", "budget": (1500, 40000), "nontrivial": r"recv\d+=(msg|proto)", "keyfn": "k2"},
         {"name": "K2-limit-after-version", "mode": "kmsz", "budget": (400, 20000), "nontrivial": r"reply=0", "keyfn": "generic"},
         {"name": "K3-both-read-paths", "mode": "k3", "budget": (40, 1000), "nontrivial": r"recv\d+=(msg|proto)", "keyfn": "generic"},
+        {"name": "K7-messages-intact-while-in-use", "mode": "kalias", "budget": (70, 1400), "nontrivial": r"answered=1", "keyfn": "generic"},
     ],
 }
 
@@ -673,6 +678,11 @@ PROPS["C06"]["rule"] += (" kmutual: pairs of Tflush naming each other's tags wri
 PROPS["C08"]["level_text"] += (" Added: Trename/Trenameat/Tlink with the first fid fenced and the second bound refuse with EINVAL before the backend; "
     "Renamed(file, new parent file, new name) is in the call log after the callback loop for every live moved reference and stays there "
     "(Session/Calls.lean: the log only grows), references already being destroyed are skipped.")
+for _p in ("C01", "C02", "C03", "C18"):
+    PROPS[_p]["rule"] = PROPS[_p].get("rule", "") + (" kalias: a request with string or payload arguments (mkdir, symlink, mknod, walk, unlinkat, write) is held "
+        "inside its backend call while 4..14 further frames (same type with other strings of the same lengths, and getattrs) are received on this and "
+        "another connection; at the end of the call its arguments must read as at its beginning; 120..400 pipelined reads whose reply writers block must "
+        "each carry the bytes the backend produced for that request.")
 PROPS["C10"]["level_text"] += (" Recycled response objects (Conc/RespPool.lean, after defect D20): over all clients of the process and every "
     "interleaving of calls starting, failing to send, being answered, connections failing and calls returning, a pooled response is referenced "
     "by no pending map and its channel is empty, no response serves two calls, and handleOne never blocks on a done channel while holding the "
